@@ -45,6 +45,64 @@ func detachedSites(p *core.Program, fns []*ssa.Function, m *types.Func) (detache
 	return
 }
 
+// goOrigin: the function a construct is attributed to in instance keys. For code inside a goroutine body - a
+// function literal, or a named function that is only ever started with go - that is the (outermost) function
+// containing the go statement, so that turning `go func(){...}()` into `go x.helper(...)` keeps the key.
+func goOrigin(p *core.Program, fn *ssa.Function) *ssa.Function {
+	ensureCallSites(p)
+	for depth := 0; depth < 4; depth++ {
+		fn = core.Outermost(fn)
+		sites := gCallSites[fn]
+		if len(sites) == 0 {
+			return fn
+		}
+		var spawner *ssa.Function
+		for _, s := range sites {
+			if _, isGo := s.(*ssa.Go); !isGo {
+				return fn
+			}
+			if spawner != nil && core.Outermost(s.Parent()) != spawner {
+				return fn
+			}
+			spawner = core.Outermost(s.Parent())
+		}
+		fn = spawner
+	}
+	return fn
+}
+
+// resolveGoParam: a parameter of a function that is only started by one go statement stands for that
+// statement's argument.
+func resolveGoParam(p *core.Program, v ssa.Value) ssa.Value {
+	ensureCallSites(p)
+	for i := 0; i < 3; i++ {
+		v = core.Canon(v)
+		pa, ok := v.(*ssa.Parameter)
+		if !ok {
+			return v
+		}
+		sites := gCallSites[pa.Parent()]
+		if len(sites) != 1 {
+			return v
+		}
+		g, isGo := sites[0].(*ssa.Go)
+		if !isGo {
+			return v
+		}
+		idx := -1
+		for k, q := range pa.Parent().Params {
+			if q == pa {
+				idx = k
+			}
+		}
+		if idx < 0 || idx >= len(g.Call.Args) {
+			return v
+		}
+		v = g.Call.Args[idx]
+	}
+	return core.Canon(v)
+}
+
 func checkC17(p *core.Program, r *core.Report) {
 	const R1 = "C17.R1 validity-filter-dominates"
 	const R2 = "C17.R2 address-hygiene"
@@ -560,7 +618,7 @@ func checkC17(p *core.Program, r *core.Report) {
 	// and the dispatched snapshot is taken after the modification: the copy call is dominated by ... (same function, later position on the path)
 	// ---- R4
 	for _, s := range det {
-		r.Fail(R4, "detached report in "+p.FnName(core.Outermost(s.Fn)), p.Pos(s.In.Pos()), "each change reports its snapshot on its own goroutine (go report.ReportMdnsEntries): the goroutines of two consecutive changes can run in the opposite order, so the last list delivered to the application is not the final set", "events e1,e2 -> goroutine(e2) scheduled before goroutine(e1) -> hub stores/forwards e1's snapshot last")
+		r.Fail(R4, "detached report in "+p.FnName(goOrigin(p, s.Fn)), p.Pos(s.In.Pos()), "each change reports its snapshot on its own goroutine (go report.ReportMdnsEntries): the goroutines of two consecutive changes can run in the opposite order, so the last list delivered to the application is not the final set", "events e1,e2 -> goroutine(e2) scheduled before goroutine(e1) -> hub stores/forwards e1's snapshot last")
 	}
 	for _, s := range syn {
 		r.OK(R4, "sequenced report in "+p.FnName(s.Fn), p.Pos(s.In.Pos()), "issued from the mutating context")
